@@ -17,6 +17,6 @@ RULE = ("as C01 with 45% soft statements (conflicting equalities/inequalities on
 
 if __name__ == "__main__":
     common.run_main(lambda: solvecheck.standard_main(
-        "C05", ["C05"], THEOREMS, PROFILE, 300, 12000,
+        "C05", ["C05", "C05Soft"], THEOREMS, PROFILE, 300, 12000,
         ["as C01; the greedy reference is computed for rand sets with at most 13 random bits"],
         RULE))
